@@ -325,6 +325,11 @@ def run_tasks(tasks, jobs):
     pending = list(tasks)
     running = {}
     results = []
+    # a worker that makes no progress at all (a library call stuck inside C code cannot be interrupted by the in-process
+    # SIGALRM watchdog) is killed after this many seconds and reported as a harness error (exit 2: inconclusive), so
+    # that a check never hangs; the termination clauses of C02/C06/C13 are judged by their own forked, kernel-killed parts
+    limit = float(os.environ.get('VERIF_TASK_TIMEOUT', '0') or 0) or (1500.0 if tasks and tasks[0][6] == 'quick' else 14400.0)
+    started = {}
     while pending or running:
         while pending and len(running) < jobs:
             t = pending.pop(0)
@@ -333,7 +338,20 @@ def run_tasks(tasks, jobs):
             p.start()
             wr.close()
             running[rd] = (p, t)
-        for c in wait(list(running)):
+            started[rd] = time.time()
+        ready = wait(list(running), timeout=5.0)
+        if not ready:
+            now = time.time()
+            for c in [c for c in running if now - started[c] > limit]:
+                p, t = running.pop(c)
+                p.kill()
+                p.join()
+                c.close()
+                results.append({'part': t[1], 'shard': t[2], 'violations': [], 'rec': Rec().export(), 'wall': limit,
+                                'error': 'worker for part %s shard %d made no progress for %.0f s and was killed '
+                                         '(a library call that does not return?)' % (t[1], t[2], limit)})
+            continue
+        for c in ready:
             p, t = running.pop(c)
             try:
                 r = c.recv()
